@@ -13,10 +13,14 @@
 (*              hp/hs/hc = how often played / stopped / completed were posted (saturating at 2)     *)
 (*              zomb = the show completed by itself and show_player still holds the instance       *)
 (*   lights[x]  set of stack entries [key = slot (the show context), prio, col, st = start_time,    *)
-(*              until = end of its fade (0: none), out = it is the fade-out left by a removal]      *)
+(*              until = end of its fade (0: none), out = it is the fade-out left by a removal,      *)
+(*              from = the colour the fade starts at (-1: not determined by the statement: it was   *)
+(*              taken while something on the light was still fading, or from entries beneath)]      *)
 (*   coil       set of slots (contexts) that hold the coil enabled                                  *)
 (*   out[sh]    what the last action made slot sh do: steps <<k, tExec, tNominal>> and events       *)
-(* Configuration: cfg.dsync = the machine-wide mpf: default_show_sync_ms (units, 0: none); a slot's  *)
+(* Configuration: cfg.fades[x] = the default fade of light x in units (0: none): the fade-in of steps *)
+(* that name no fade of their own and the fade-out of every removal; a slot's fd[k] = the fade the  *)
+(* k-th step gives for its light (-1: none given, the light's default applies).  cfg.dsync = the machine-wide mpf: default_show_sync_ms (units, 0: none); a slot's  *)
 (* sync is -1 (sync_ms not given: the machine default applies), 0 (explicitly none: the show starts *)
 (* at once whatever the default) or its own grid.  same = n: the slot is the SAME play request as   *)
 (* slot n (same show_player entry: key, show, config), arriving again.  quiet: the request names no *)
@@ -28,7 +32,7 @@ CONSTANTS Configs,      \* set of records [id, sh |-> << slot configs >>]
           Lates,        \* lateness values the environment may pick for a pending show timer
           AdvN, BackN,  \* arguments of advance(steps=n) / step_back(steps=n)
           Speeds,       \* arguments of update(speed=)
-          NL,           \* number of lights (light 2 has the default fade cfg.fade, in units)
+          NL,           \* number of lights (light x has the default fade cfg.fades[x], in units)
           OddOps,       \* also issue requests to shows that are over, and resume to shows that are not paused
           Deviations    \* named code-as-is deviations from the statement (empty: the statement)
 VARIABLES cfg, now, st, lights, coil, out, nops, act
@@ -52,12 +56,20 @@ Root(sh) == IF C(sh).same = 0 THEN sh ELSE C(sh).same
 Keyed(sh) == C(sh).via = "player"
 SameKey(x, sh) == x # sh /\ Keyed(x) /\ Keyed(sh) /\ C(x).key = C(sh).key
 Inc(n) == IF n >= 2 THEN 2 ELSE n + 1
-Fade(x) == IF x = 2 THEN cfg.fade ELSE 0
+Fade(x) == cfg.fades[x]
+\* the fade of step k of slot sh on its light x
+StepFade(sh, k, x) == IF C(sh).fd[k] >= 0 THEN C(sh).fd[k] ELSE Fade(x)
 
 EmitEv(w, sh, evs) == [w EXCEPT !.out[sh].ev = @ \o evs]
 EmitStep(w, sh, k, t, nom) == [w EXCEPT !.out[sh].steps = Append(@, <<k, t, nom>>)]
 Count(q, x) == Cardinality({i \in DOMAIN q : q[i] = x})
 
+\* The colour a light shows DURING a fade is fixed by the statement only for a fade that runs alone: it starts while
+\* everything on the light is at rest (Calm) and no other fade starts on the light before it ends.  A fade that starts
+\* into another one, and the one it starts into, are left open (from = -1): only their ends count
+\* (a fade that ends at the very instant counts as still running: which of the two comes first is not ours to say)
+Calm(E, t) == \A e \in E : e.until = 0 \/ e.until < t
+Unsettle(E, t) == {[e EXCEPT !.from = IF e.until > t THEN -1 ELSE @] : e \in E}
 \* RunningShow.stop: idempotent; an unused start callback is called; contexts of all players are cleared
 \* (light entries by key removed, enabled coils disabled); the stop callback (queue.clear) runs; stopped is posted
 RECURSIVE StopF(_, _, _)
@@ -69,21 +81,33 @@ StopF(w, sh, t) ==
              w2 == IF s.startcb # 0 THEN StopF(w1, s.startcb, t) ELSE w1
              \* light_player.clear_context -> remove_from_stack_by_key with the light's default fade: the entry is
              \* removed at once, or turned into a fade-out entry that a delay removes when the fade has elapsed
+             \* the fade-out starts at the colour the entry shows at that moment: its own colour when the light is at rest
              w3 == [w2 EXCEPT !.lights = [x \in Lights |->
-                                 {e \in w2.lights[x] : e.key # sh \/ e.out} \cup
-                                 (IF Fade(x) = 0 THEN {}
-                                  ELSE {[e EXCEPT !.col = -2, !.st = t, !.until = t + Fade(x), !.out = TRUE] :
-                                            e \in {f \in w2.lights[x] : f.key = sh /\ ~f.out}})],
+                                 IF Fade(x) = 0 \/ ~\E f \in w2.lights[x] : f.key = sh /\ ~f.out
+                                 THEN {e \in w2.lights[x] : e.key # sh \/ e.out}
+                                 ELSE Unsettle({e \in w2.lights[x] : e.key # sh \/ e.out}, t) \cup
+                                      {[e EXCEPT !.col = -2, !.st = t, !.until = t + Fade(x), !.out = TRUE,
+                                                 !.from = IF Calm(w2.lights[x], t) THEN e.col ELSE -1] :
+                                            e \in {f \in w2.lights[x] : f.key = sh /\ ~f.out}}],
                               !.coil = IF sh \in w2.coil /\ "CoilSharedDisable" \in Deviations THEN {} ELSE @ \ {sh}]
          IN EmitEv(w3, sh, (IF C(sh).blockq THEN <<"qdone">> ELSE <<>>) \o <<"stopped">>)
 
-\* the players of step k run with start_time = the step's nominal time
-StepEffects(w, sh, k, nom) ==
+\* the players of step k run (at time t) with start_time = the step's nominal time.  A fade that starts on a light at
+\* rest starts at the colour the show itself has on the light, or at "off" when nothing lies beneath the new entry (as
+\* on a clean light); with other entries beneath, or started mid-fade, the statement does not fix the start colour
+StepEffects(w, sh, k, nom, t) ==
     LET x == C(sh).lt[k]
+        f == StepFade(sh, k, x)
+        own == {e \in w.lights[x] : e.key = sh}
+        fr == IF ~Calm(w.lights[x], t) THEN -1
+              ELSE IF own # {} THEN (CHOOSE e \in own : TRUE).col
+              ELSE IF \A e \in w.lights[x] : e.prio > C(sh).prio THEN 0 ELSE -1
         w1 == IF x = 0 THEN w
-              ELSE [w EXCEPT !.lights[x] = {e \in @ : e.key # sh} \cup
+              ELSE [w EXCEPT !.lights[x] = (IF f > 0 /\ nom + f > t THEN Unsettle({e \in @ : e.key # sh}, t)
+                                                                   ELSE {e \in @ : e.key # sh}) \cup
                                  {[key |-> sh, prio |-> C(sh).prio, col |-> C(sh).col[k], st |-> nom,
-                                   until |-> IF Fade(x) > 0 THEN nom + Fade(x) ELSE 0, out |-> FALSE]}]
+                                   until |-> IF f > 0 THEN nom + f ELSE 0, out |-> FALSE,
+                                   from |-> IF f > 0 THEN fr ELSE -1]}]
         cv == C(sh).coil[k]
     IN IF cv = 1 THEN [w1 EXCEPT !.coil = @ \cup {sh}] ELSE w1
 
@@ -100,7 +124,7 @@ RunNext(w, sh, t, evs) ==
                 lp == IF wrap /\ s.loops > 0 THEN s.loops - 1 ELSE s.loops
                 ev2 == IF wrap THEN evs \o <<"looped">> ELSE evs
                 arm == ~s.manual /\ C(sh).durs[k] > 0
-                w1 == EmitStep(StepEffects(w, sh, k, s.nextT), sh, k, t, s.nextT)
+                w1 == EmitStep(StepEffects(w, sh, k, s.nextT, t), sh, k, t, s.nextT)
                 s2 == [s EXCEPT !.idx = i + 1, !.cur = k, !.loops = lp, !.armed = arm, !.late = 0,
                                 \* ABSOLUTE accumulation: the next step is due at the nominal time of this one plus
                                 \* its duration - not at "when this one actually ran" plus its duration
@@ -283,5 +307,36 @@ PausedIsSilent == [][\A sh \in Slots : (act'.op = "adv" /\ ~st[sh].armed) => out
 CleanAfterStop == \A sh \in Slots : (st[sh].ph = "done")
                       => /\ \A x \in Lights : \A e \in lights[x] : e.key = sh => (e.out /\ e.until > now)
                          /\ sh \notin coil
+\* NoResidue - the same on the light stacks themselves: every entry on a light is the colour of a show that runs, or the
+\* fade-out of a show that is over - and that only until the light's fade time after its stop has passed.  Nothing of a
+\* stopped show remains, whatever lies above it on the light (a higher show still holding an opaque colour), whatever the
+\* order in which the shows on the light end
+NoResidue == \A x \in Lights : \A e \in lights[x] :
+                 IF e.out THEN st[e.key].ph = "done" /\ e.st <= now /\ now < e.until /\ e.until = e.st + Fade(x)
+                 ELSE st[e.key].ph = "run"
+\* once every show is over and the fade-outs have run out the lights are off and their stacks are empty
+OffWhenAllOver == ((\A sh \in Slots : st[sh].ph \in {"none", "done"}) /\ (\A x \in Lights : AtRest(x)))
+                     => \A x \in Lights : lights[x] = {} /\ Top(x) = 0
+\* a stop request leaves the entries of every other show exactly as they are
+StopTouchesOnlyOwn == [][act'.op = "stop" => \A x \in Lights : \A e \in lights[x] :
+                             (st'[e.key].ph = st[e.key].ph /\ ~e.out)
+                                 => \E g \in lights'[x] : [g EXCEPT !.from = e.from] = e]_vars
+\* ---- the visible colour while at most one fade is in progress on a light (priorities on the light all different):
+\* the top entry at rest shows its colour; a fade-in runs linearly from its start colour to its colour, a fade-out from
+\* the colour it took over to whatever lies beneath - exactly as on a light that never saw the shows that are over
+Pal == <<<<0, 0, 0>>, <<255, 0, 0>>, <<0, 255, 0>>, <<0, 0, 255>>, <<255, 255, 255>>>>
+Rgb(c) == Pal[c + 1]
+Active(x) == {e \in lights[x] : e.until > now}
+TopE(x) == CHOOSE e \in lights[x] : \A f \in lights[x] : f.prio <= e.prio
+Beneath(x, e) == LET B == {f \in lights[x] : f.prio < e.prio /\ ~f.out}
+                 IN IF B = {} THEN 0 ELSE (CHOOSE f \in B : \A g \in B : g.prio <= f.prio).col
+VisKnown(x) == /\ Cardinality(Active(x)) <= 1
+               /\ \A e, f \in lights[x] : e # f => e.prio # f.prio
+               /\ lights[x] # {} => (TopE(x).until > now => TopE(x).from >= 0)
+Blend(a, b, num, den) == [i \in 1..3 |-> a[i] + ((b[i] - a[i]) * num) \div den]
+Vis(x) == IF lights[x] = {} THEN Rgb(0)
+          ELSE LET e == TopE(x) IN
+               IF e.until <= now THEN Rgb(e.col)
+               ELSE Blend(Rgb(e.from), Rgb(IF e.out THEN Beneath(x, e) ELSE e.col), now - e.st, e.until - e.st)
 QueueReleasedAtEnd == [][\A sh \in Slots : Count(out'[sh].ev, "qdone") = (IF C(sh).blockq /\ st[sh].ph # "done" /\ st'[sh].ph = "done" THEN 1 ELSE 0)]_vars
 =============================================================================
